@@ -35,6 +35,9 @@ func vC17ToChannel(L int) {
 		n := 0
 		for n < stopReading {
 			v, ok := <-chans[0]
+			// a consumer is not necessarily back at the channel when the next notification comes:
+			// this point lets the producer run first (and pins that order in the native replay)
+			vYield()
 			if !ok {
 				closed = true
 				return
